@@ -60,6 +60,10 @@ def run(F, X, rep):
     Cn = Rn.Ctx.get(F, X)
     if HHn.need_hh(Cn, rep, "C12-N"):
         HHn.n1_continue_paths_effect_free(Cn, rep, "C12-N")
+    # "the first HTLC of a payment with no earlier attempt": every lifecycle path ends by answering and removing its entry -
+    # a stale entry would answer the next first HTLC with whatever the old lifecycle said
+    if Rn.need_lc(Cn, rep, "C12-E"):
+        Rn.p2_exactly_one_answer(Cn, rep, "C12-E")
     import p_c19
     import rules_hh as HHq
     import rules_lc as Rq
